@@ -106,9 +106,9 @@ where
                 let num = self.get_number_literal()?;
                 Ok(ast::InlineExpression::NumberLiteral { value: num })
             }
-            Some(b'-') if !only_literal => {
+            Some(b'-') => {
                 self.ptr += 1; // -
-                if self.is_identifier_start() {
+                if !only_literal && self.is_identifier_start() {
                     self.ptr += 1;
                     let id = self.get_identifier_unchecked();
                     let attribute = self.get_attribute_accessor()?;
